@@ -250,7 +250,9 @@ class OptionManager():
             js = None
             for attempt in range(2):
                 try:
+                    fo.seek(0)
                     js = json.load(fo)
+                    break
                 except json.decoder.JSONDecodeError:
                     time.sleep(wait_secs)
 
